@@ -92,6 +92,27 @@ Theorem C14_replies_stay_in_frame : forall b32 bs pass c cs rest, call_ok b32 bs
 Proof. exact replies_in_frame. Qed.
 Print Assumptions C14_replies_stay_in_frame.
 
+(* any input at all (any integer class of the selector, any accepted argument encoding):
+   a successful dispatch ran exactly the handler the selector on the wire selects, once,
+   with the arguments decoded under that handler's types, and replied with its return value *)
+Theorem C14_success_any_input : forall b32 bs pass inp out log inp' out' log',
+  dispatch b32 bs pass (inp, out, log) = Ok tt (inp', out', log') ->
+  exists s inp1 i b args,
+    dec (sel_ty b32) lr_ops inp = Ok (VInt s) inp1 /\
+    lookup (Z.to_N s) bs 0 = Some (i, b) /\
+    dec (args_ty (b_args b)) lr_ops inp1 = Ok (VSeq args) inp' /\
+    log' = log ++ [{| k_idx := i; k_pass := pass; k_args := args |}] /\
+    serialize (b_ret b) (b_fn b pass args) lw_ops out = Ok tt out'.
+Proof. exact dispatch_success_any_input. Qed.
+Print Assumptions C14_success_any_input.
+
+Theorem C14_at_most_one_handler : forall b32 bs pass inp out log r inp' out' log',
+  dispatch b32 bs pass (inp, out, log) = r ->
+  (r = Ok tt (inp', out', log') \/ exists e, r = Err e (inp', out', log')) ->
+  log' = log \/ exists c, log' = log ++ [c].
+Proof. exact dispatch_at_most_one_handler. Qed.
+Print Assumptions C14_at_most_one_handler.
+
 (* non-vacuity: two bindings, a call of the second, then an unbound selector *)
 Example C14_nonvacuous :
   let i32 := TScalar 0 (SInt I32) in
